@@ -1,16 +1,37 @@
 HOOK_COMMITS = []   # no verification hooks in /repo; 'fix:' commits are listed in known_findings.txt
-PENDING = "no check built yet in this session (see DESIGN.md section 6 for the planned contracts); listed here until its units exist, not because the technique cannot apply"
+COMMON_NOTE = "assumed contracts for binary-only libogg and for callees that are proved in their own units or only assumed (listed per unit in evidence); malloc never fails; bounded units (kind B) are labelled and counted separately"
 CLAIMS = {
- "C02": {"text": "Function-by-function contract proofs of the header unpackers against the decoder's setup invariant; CBMC-generated safety obligations (bounds, pointers, overflow, division, shifts, leaks) hold for all inputs of each function under contract.",
-         "note": "assumed contracts for binary-only libogg; malloc never fails; functions not yet under contract are listed in evidence.assumptions"},
- "C16": {"text": "Case folding proved for all ints, tagcompare for all lengths (loop contract, ghost index); query/query_count against an independent specification function on bounded comment lists (B).",
-         "note": "string-handling units are bounded (<=3 comments x <=4 chars); libc string models of CBMC"},
+ "C02": {"text": "Contract proofs of the header unpackers against the decoder's setup invariant (ID header, static codebook, floor 1) and of the half-rate guard; CBMC-generated safety obligations (bounds, pointers, overflow, division, shifts, leaks) hold for all inputs of each function under contract. Partial: the audio-packet consumers (floor/residue inverse, codebook decode, block layer) are not yet under contract.",
+         "note": COMMON_NOTE + "; floor1_unpack is a bounded unit"},
+ "C03": {"text": "vorbisfile functions under contract against the handle invariant INV_VF (incl. the position-unset state after a failed seek): accessors, _seek_helper, second stage of open, ov_pcm_seek (table indices, termination of the sample-discard loop), _initial_pcmoffset, ov_read_filter (bounded), _ov_splice (bounded). Partial: page search, header fetch, link bisection and ov_pcm_seek_page are only assumed through callee contracts.",
+         "note": COMMON_NOTE + "; termination of loops that wait for the data source is not claimed"},
+ "C04": {"text": "Partial: the per-link initial PCM offset is proved non-negative (the fact the total-length computation of vorbisfile relies on for end-trimmed single-page streams). The encoder-side granule position invariant is not yet under contract.",
+         "note": COMMON_NOTE},
+ "C07": {"text": "Partial, bookkeeping only: the read call advances the reported position by exactly the frames returned (doubled under half-rate) and reports the current link; ov_pcm_seek ends at or past the rounded target. Bit-identity with an uninterrupted decode is a relation between executions and is not decided.",
+         "note": COMMON_NOTE},
+ "C08": {"text": "Partial: ov_pcm_seek under contract (error propagation, success implies the position reached the rounded target, the discard loop terminates). Reaching every target on an intact stream depends on file contents and is not decided.",
+         "note": COMMON_NOTE + "; ov_pcm_seek_page only through its assumed contract"},
+ "C09": {"text": "Partial: the per-link initial PCM offset is non-negative and the per-link accessors return exactly the table entries; construction of the link table by bisection is not yet under contract.",
+         "note": COMMON_NOTE},
+ "C12": {"text": "Callbacks are body-less stubs obeying only their contracts, so every failure point is covered: a failed seek callback leaves offset and framing state alone; a failed second-stage open clears the handle without running the close callback; every accessor is memory-safe with the position unset (-1) as a failed seek leaves it. Partial: propagation through page search / bisection not yet under contract.",
+         "note": COMMON_NOTE},
+ "C13": {"text": "Partial: rejected ID header / codebook / floor-1 setup leak nothing (memory-leak check on the real code paths); comment_clear releases everything and is idempotent (bounded); the close callback is not run by a failed second-stage open and ov_clear's contract runs it exactly once. Encoder set-up allocations and vorbis_dsp_clear are not yet under contract.",
+         "note": COMMON_NOTE},
+ "C14": {"text": "vorbis_bitrate_addblock under contract: chosen blob in range, reservoir stays in [0, reservoir_bits], reservoir charged at least the excess over the per-block maximum / credited at most the shortfall below the minimum, for all blob sizes, rates, reservoir sizes and bias; cases hard-max-only and hard-min-only proved (quick tier: contract postconditions; thorough: all obligations). The min+max (CBR) case and average-bitrate tracking are undecided by every back end and not claimed.",
+         "note": COMMON_NOTE + "; reservoir_bits >= 8; libogg write-side contracts assumed"},
+ "C16": {"text": "Case folding proved for all ints, tagcompare for all lengths (loop contract, ghost index); query/query_count against an independent specification function on bounded comment lists (B, thorough tier).",
+         "note": "string-handling units are bounded; libc string models of CBMC"},
  "C17": {"category": "other", "text": "ov_read_filter under contract, case-split over (word, signed, byte order): parameter errors, frame count, position advance, untouched bytes and the value of every output byte (ghost channel/frame) for symbolic floats; bounded in channels/frames (B).",
          "note": "cvtsd2si model assumed (Intel SDM); <=2 channels, <=2 frames per packet; callee contracts for pcmout/read/fetch assumed"},
+ "C19": {"category": "other", "text": "Partial, bounded: _ov_splice under contract - squared-window cross-fade over min(n1,n2) samples with the window of that size, fade-in from silence for extra channels, nothing else modified, no access beyond the lap region (float postconditions decided by z3 with the FP theory).",
+         "note": COMMON_NOTE + "; <= 2 channels, lap sizes <= 2; equality of positions/audio with the plain seek is relational and not decided"},
+ "C20": {"text": "Half-rate: refused (nothing changed) for 64-sample short blocks, flag normalised; ov_halfrate switches every link or, on refusal, leaves every link at full rate (bounded in links); read calls advance the position by frames<<hs; ov_pcm_seek's discard loop terminates under half-rate (a genuine hang was found and fixed). Partial: block-layer index arithmetic under hs not yet under contract.",
+         "note": COMMON_NOTE},
 }
 NOT_APPLICABLE = {
  "C06": "bounds the reconstruction error of a lossy floating-point pipeline built on cos/log/exp/sqrt, which CBMC leaves unconstrained; no contract within reach expresses it (DESIGN.md section 8)",
  "C10": "2-safety relation between whole-library executions that differ in the read callback's short-read schedule and access path, through binary-only libogg; no single-call contract states it (DESIGN.md section 8)",
 }
-for p in ["C01","C03","C04","C05","C07","C08","C09","C11","C12","C13","C14","C15","C18","C19","C20"]:
+PENDING = "no proof unit built yet (DESIGN.md section 6 gives the planned contracts; section 12 says why it was not reached); not claimed rather than propped up with another technique"
+for p in ["C01","C05","C11","C15","C18"]:
     NOT_APPLICABLE[p] = PENDING
